@@ -27,7 +27,7 @@ type Payload struct {
 func (p Payload) Error() string { return string(p.Type) + "---" + p.Data }
 
 func (p *Payload) Unmarshal(d string) {
-	a := strings.Split(d, "---")
+	a := strings.SplitN(d, "---", 2)
 	if len(a) != 2 {
 		p.Type = TypeUnknown
 		p.Data = d
